@@ -99,6 +99,22 @@ func (w *VerifWatch) Delete(k string) {
 	}})
 }
 
+// Batch feeds several watch events as ONE call of cluster.handleWatchEvents
+// (ev = {"put", k, v} or {"del", k, ""}).
+func (w *VerifWatch) Batch(evs [][3]string) {
+	var l []*clientv3.Event
+	for _, e := range evs {
+		if e[0] == "put" {
+			l = append(l, &clientv3.Event{Type: clientv3.EventTypePut,
+				Kv: &mvccpb.KeyValue{Key: []byte(e[1]), Value: []byte(e[2])}})
+		} else {
+			l = append(l, &clientv3.Event{Type: clientv3.EventTypeDelete,
+				Kv: &mvccpb.KeyValue{Key: []byte(e[1])}})
+		}
+	}
+	w.c.handleWatchEvents(context.Background(), w.key, l)
+}
+
 // Reload feeds a full snapshot to cluster.handleChanges (what cluster.load does with a Get response).
 func (w *VerifWatch) Reload(kvs [][2]string) {
 	l := make([]KV, 0, len(kvs))
